@@ -6,10 +6,10 @@ HERE = os.path.dirname(os.path.dirname(os.path.abspath(__file__)))
 # property id -> (level text, level note, technique, design ref)
 T0="contract-based deductive verification: weakest-precondition style VCs over go/ssa of /repo, discharged by z3 4.8.12 / z3 5.1.0 / cvc5 1.0"
 CLAIMED = {
- "C14": ("Deductive proof (self-written VC generator govc over go/ssa, z3/cvc5) of contracts on the real pfb functions: hexEncode and (*pfbReader).Read.",
-         "Trusted: govc, go/ssa, solvers, io.Reader/io.ReadFull interface contracts; see evidence assumptions.",
+ "C14": ("Deductive proof of a functional step contract of (*pfbReader).Read over a ghost input tape: every iteration of the decoder is one step of the PFB format (header 128/type/little-endian length with types 1..3 only, text bytes verbatim, binary bytes as two lower-case hexadecimal digits high nibble first, the odd digit kept in tail and delivered first by the next step), proved for every caller buffer length and every short-read pattern of the underlying reader (all are universally quantified symbols), with the in-place hex expansion invariant, the frame of the already delivered output, safety, and the byte counts.",
+         "Partial: the steps are not composed into one closed formula for the whole output stream (the step relation is the specification); error results (short segment, end marker with fewer than six bytes) are covered by safety and the C13 clauses only. Trusted: io.Reader / io.ReadFull contracts, govc, go/ssa, solvers; fewer than 2^62 input bytes.",
          "contract-based deductive verification: weakest-precondition style VCs over go/ssa of /repo, discharged by z3 4.8.12 / z3 5.1.0 / cvc5 1.0",
-         "DESIGN.md §3 C14"),
+         "DESIGN.md A.4 C14"),
 }
 CLAIMED["C01"] = ("Deductive proof of the implicit safety obligations (index/slice bounds, nil dereference, nil-map write, failed type assertion, division by zero, make size, explicit panic, callee preconditions) plus the representation invariants that carry them, on every function of the reader path that is under contract; termination (decreases) for the loops that carry a variant.",
   "Partial: see evidence.not_covered (functions not yet under contract, obligations listed as not claimed, termination of interpreter loops, stack exhaustion). Trusted: govc, go/ssa, solvers, stdlib contracts listed in the evidence.",
@@ -46,8 +46,8 @@ CLAIMED["C10"] = ("Deductive proof of the implicit safety obligations (no panic)
 CLAIMED["C13"] = ("Deductive proof with ghost state: (readers) the scanner's first read error is sticky and every short read surfaces as a non-nil error through refill, readByteRaw, readByte, PeekN; (writers) ghost flag wfault ('some write to an underlying io.Writer failed'): every writer function - hex, eexec, counting writers, Font.Write in all formats, Font.WritePDF, afm Metrics.Write - returns a non-nil error whenever a write failed during the call.",
   "Partial: truncation-never-yields-partial-result and the upper reader layers (ScanToken, Execute, type1.Read, afm.Read) are not yet under this contract (see evidence.not_covered). Trusted: io.Writer/io.Reader interface contracts, fmt.Fprintf and text/template report write errors.", T, "DESIGN.md §3 C13")
 
-CLAIMED["C12"] = ("Deductive proof of the scanner's buffer-refill contract, which is what makes the token layer independent of the delivery schedule: refill is only ever called with an empty buffer (precondition checked at every call site, so no unread byte is dropped or reordered), a read that returns data together with an error delivers the data first (result nil iff bytes arrived), the error is kept for the next call, and 0 <= pos <= used <= len(buf) holds for every number of bytes the underlying reader chooses to return (the io.Reader contract leaves n arbitrary in 0..len(p): every delivery schedule is a resolution of that choice). The pfb reader's schedule independence is the io.ReadFull contract used in C14.",
-  "Partial: a ghost input tape relating Next/Peek results to stream offsets, the split-Execute equivalence and the seekable/non-seekable branch of type1.Read are not under contract (see evidence.not_covered). Trusted: io.Reader interface contract, govc, go/ssa, solvers.", T, "DESIGN.md §3 C12")
+CLAIMED["C12"] = ("Deductive proof, over a ghost input tape (the sequence of all bytes the underlying reader delivers, in portions of arbitrary size: the io.Reader contract leaves every n in 0..len(p) free, so every delivery schedule is covered by the universally quantified n), that the scanner's byte layer hands out exactly tape(c), tape(c+1), ... in clear-text mode: refill appends exactly the next tape bytes and is only called on an empty buffer; readByteRaw/readByte/Next return tape(cursor) and advance the cursor by one, Peek returns it without moving; the bytes in memory are always tape[cursor, tpos); data delivered together with an error is handed out before the error.",
+  "Partial: the token layer above the byte layer is covered only through the per-token contracts of C04; eexec mode, the split-Execute equivalence, the seekable/non-seekable branch of type1.Read and afm.Read (bufio.Scanner) are not under contract; fewer than 2^62 input bytes (see evidence.not_covered). Trusted: io.Reader interface contract, govc, go/ssa, solvers.", T, "DESIGN.md A.4 C12")
 CLAIMED["C18"] = ("Deductive proof of the isolation half: every composite object reachable from a new interpreter (system, user, error, internal, font, CMap and resource dictionaries, the dictionary stack, the StandardEncoding array, the ProcSet dictionary and its CIDInit procedure set) is allocated during NewInterpreter/makeSystemDict (fresh(x): its reference is newer than the allocation counter at entry), hence shared with no earlier instance and with no package-level variable; package-level tables are only read.",
   "Partial: the data-race half (all interleavings) is outside a sequential verifier; the lock discipline of the lazily built name tables is not under contract (see evidence.not_covered). Trusted: maps.Clone returns a fresh map; govc, go/ssa, solvers.", T, "DESIGN.md §3 C18")
 CLAIMED["C19"] = ("Deductive proof of the derived-metrics contracts: NumGlyphs counts the glyph map plus .notdef when missing (Type 1 and AFM); GlyphList has that length; the Type 1 bounding box is empty exactly when no glyph has a point, and otherwise contains every control point of every glyph (loop invariants over all glyphs and commands) and touches a point on each side; GlyphWidthPDF returns the stored width scaled by 1000*FontMatrix[0] (Type 1) or the AFM width, 0 for unknown names.",
